@@ -727,5 +727,204 @@ func genReadEntryPoints(l *loader, repo, out string) {
 		fmt.Fprintf(&lf.b, "\n  (%s, %s)", leanStr(e[0]), leanStr(e[1]))
 	}
 	lf.raw("]\n")
+	genAccountFacts(l, p, lf)
 	lf.write(out)
+}
+
+// ---- account loading and the moderator cache (C07, rounds 3) ------------------------------------------------------
+//
+//	adminPerm               the constant pwcuInitAdminPerm assigns to UserLevel
+//	initCurrentUserSpecial  the special-casing of ptt.InitCurrentUser, in source order:
+//	                        (subject, bytes compared with, function applied to the loaded record)
+//	                        subject = "loaded"   the id of the record cmbbs.PasswdLoadUser returned
+//	                                  "supplied" the id the caller passed in
+//	                                  "?<text>"  anything else
+//	                        a call of a same-package helper whose body holds the comparisons is read through, with the
+//	                        helper's parameters replaced by the arguments of the call
+//	parseBMListFreshArray   cache.ParseBMList starts from a freshly allocated array (&[MAX_BMs]UID{...})
+func genAccountFacts(l *loader, p *packages.Package, lf *leanFile) {
+	// adminPerm
+	fd := repFuncDecl(p, "pwcuInitAdminPerm")
+	admin := ""
+	ast.Inspect(fd.Body, func(n ast.Node) bool {
+		as, ok := n.(*ast.AssignStmt)
+		if !ok || len(as.Lhs) != 1 || len(as.Rhs) != 1 || !isSel(as.Lhs[0], "UserLevel") {
+			return true
+		}
+		if tv, ok := p.TypesInfo.Types[as.Rhs[0]]; ok && tv.Value != nil {
+			admin = constant.ToInt(tv.Value).ExactString()
+		}
+		return true
+	})
+	if admin == "" {
+		fatal("ptt.pwcuInitAdminPerm: no constant assignment to UserLevel")
+	}
+	lf.raw("\n/- ptt.pwcuInitAdminPerm: user.UserLevel = <this constant> -/\n")
+	lf.nat("adminPerm", admin)
+
+	// bytes of a constant string / []byte("...") variable of ptttype
+	pt := p.Imports[modPath+"/ptttype"]
+	strBytes := func(e ast.Expr) (string, bool) {
+		e = ast.Unparen(e)
+		if call, ok := e.(*ast.CallExpr); ok && len(call.Args) == 1 { // []byte(X)
+			if tv, ok := p.TypesInfo.Types[call.Fun]; ok && tv.IsType() {
+				e = ast.Unparen(call.Args[0])
+			}
+		}
+		if tv, ok := p.TypesInfo.Types[e]; ok && tv.Value != nil && tv.Value.Kind() == constant.String {
+			return strings.Join(bytesOf(constant.StringVal(tv.Value)), ", "), true
+		}
+		if sel, ok := e.(*ast.SelectorExpr); ok && pt != nil {
+			if _, isVar := pt.Types.Scope().Lookup(sel.Sel.Name).(*types.Var); isVar {
+				flat, _ := litInts(pt, varInit(pt, sel.Sel.Name))
+				return strings.Join(flat, ", "), true
+			}
+		}
+		return "", false
+	}
+	type special struct{ subject, bytes, action string }
+	var specials []special
+	var scan func(fd *ast.FuncDecl, subst map[types.Object]string, depth int)
+	scan = func(fd *ast.FuncDecl, subst map[types.Object]string, depth int) {
+		// variables bound by cmbbs.PasswdLoadUser are "the loaded record"
+		loaded := map[types.Object]bool{}
+		classify := func(e ast.Expr) string {
+			e = ast.Unparen(sliceBase(e))
+			if u, ok := e.(*ast.UnaryExpr); ok && u.Op == token.AND {
+				e = ast.Unparen(u.X)
+			}
+			if sel, ok := e.(*ast.SelectorExpr); ok && sel.Sel.Name == "UserID" {
+				if id, ok := ast.Unparen(sel.X).(*ast.Ident); ok {
+					o := p.TypesInfo.Uses[id]
+					if loaded[o] {
+						return "loaded"
+					}
+					if v, ok := subst[o]; ok && v == "record" {
+						return "loaded"
+					}
+				}
+			}
+			if id, ok := e.(*ast.Ident); ok {
+				o := p.TypesInfo.Uses[id]
+				if v, ok := subst[o]; ok {
+					if v == "record" {
+						return "?record"
+					}
+					return v
+				}
+			}
+			return "?" + types.ExprString(e)
+		}
+		for _, st := range fd.Body.List {
+			switch x := st.(type) {
+			case *ast.AssignStmt:
+				if len(x.Rhs) == 1 && repCallee(x.Rhs[0]) == "cmbbs.PasswdLoadUser" && len(x.Lhs) == 3 {
+					if id, ok := x.Lhs[1].(*ast.Ident); ok {
+						o := p.TypesInfo.Uses[id]
+						if o == nil {
+							o = p.TypesInfo.Defs[id]
+						}
+						loaded[o] = true
+					}
+				}
+			case *ast.IfStmt:
+				b, ok := ast.Unparen(x.Cond).(*ast.BinaryExpr)
+				if !ok || b.Op != token.EQL {
+					continue
+				}
+				call, ok := ast.Unparen(b.X).(*ast.CallExpr)
+				if !ok || repCallee(call) != "types.Cstrcmp" || len(call.Args) != 2 {
+					continue
+				}
+				bs, ok := strBytes(call.Args[1])
+				if !ok {
+					bs = ""
+				}
+				action := ""
+				if len(x.Body.List) == 1 {
+					if es, ok := x.Body.List[0].(*ast.ExprStmt); ok {
+						action = repCallee(es.X)
+					}
+				}
+				specials = append(specials, special{classify(call.Args[0]), bs, action})
+			case *ast.ExprStmt:
+				call, ok := x.X.(*ast.CallExpr)
+				if !ok || depth > 0 {
+					continue
+				}
+				id, ok := call.Fun.(*ast.Ident)
+				if !ok {
+					continue
+				}
+				var helper *ast.FuncDecl
+				for _, f := range p.Syntax {
+					for _, d := range f.Decls {
+						if h, ok := d.(*ast.FuncDecl); ok && h.Recv == nil && h.Name.Name == id.Name && h.Body != nil {
+							helper = h
+						}
+					}
+				}
+				if helper == nil || helper.Type.Params == nil {
+					continue
+				}
+				sub := map[types.Object]string{}
+				k := 0
+				for _, f := range helper.Type.Params.List {
+					for _, n := range f.Names {
+						if k < len(call.Args) {
+							arg := ast.Unparen(call.Args[k])
+							v := classify(arg)
+							if aid, ok := arg.(*ast.Ident); ok && loaded[p.TypesInfo.Uses[aid]] {
+								v = "record"
+							}
+							sub[p.TypesInfo.Defs[n]] = v
+						}
+						k++
+					}
+				}
+				scan(helper, sub, depth+1)
+			}
+		}
+	}
+	icu := repFuncDecl(p, "InitCurrentUser")
+	top := map[types.Object]string{}
+	if icu.Type.Params != nil {
+		for _, f := range icu.Type.Params.List {
+			for _, n := range f.Names {
+				top[p.TypesInfo.Defs[n]] = "supplied"
+			}
+		}
+	}
+	scan(icu, top, 0)
+	lf.raw("\n/- ptt.InitCurrentUser: (whose id is compared, the bytes it is compared with, what is applied to the loaded record) -/\n")
+	lf.raw("def initCurrentUserSpecial : List (String × List Nat × String) := [")
+	for i, sp := range specials {
+		if i > 0 {
+			lf.raw(",")
+		}
+		fmt.Fprintf(&lf.b, "\n  (%s, [%s], %s)", leanStr(sp.subject), sp.bytes, leanStr(sp.action))
+	}
+	lf.raw("]\n")
+
+	// cache.ParseBMList: the array the uids are written into
+	pc := l.load("cache")
+	pfd := repFuncDecl(pc, "ParseBMList")
+	fresh := false
+	initText := ""
+	for _, st := range pfd.Body.List {
+		as, ok := st.(*ast.AssignStmt)
+		if !ok || len(as.Lhs) != 1 || len(as.Rhs) != 1 {
+			continue
+		}
+		if id, ok := as.Lhs[0].(*ast.Ident); !ok || id.Name != "uids" {
+			continue
+		}
+		initText = types.ExprString(as.Rhs[0])
+		if u, ok := ast.Unparen(as.Rhs[0]).(*ast.UnaryExpr); ok && u.Op == token.AND {
+			_, fresh = ast.Unparen(u.X).(*ast.CompositeLit)
+		}
+		break
+	}
+	fmt.Fprintf(&lf.b, "\n/- cache.ParseBMList starts from `%s` -/\n", strings.ReplaceAll(initText, "\n", " "))
+	fmt.Fprintf(&lf.b, "def parseBMListFreshArray : Bool := %v\n", fresh)
 }
